@@ -39,12 +39,20 @@ def make_case(rng):
     names = {s["name"] for s in net["species"]}
     elements = sorted({e for s in net["species"] for e in s["comp"]} | {"H"})
     req = []
+    # one element may be present only in molecules / ions (no neutral atom in the network): it is not renormalised itself, the elements
+    # it shares species with still are
+    skip = None
+    cand = [e for e in elements if e != "H" and e not in names and any(e in s["comp"] and len(s["comp"]) >= 2 for s in net["species"])]
+    if cand and rng.random() < 0.35:
+        skip = rng.choice(cand)
     for e in elements:
+        if e == skip:
+            continue
         if e not in names:
             net["species"].append(chem.make_species([(e, 1)]))
             req.append(e)
     grains = rng.random() < 0.35
-    case = {"net": net, "required_atoms": req, "grains": grains, "alphas": chem.distinct_alphas(rng, len(net["reactions"]) + 2), "entry": "api"}
+    case = {"net": net, "required_atoms": req, "grains": grains, "element_without_atom": skip, "alphas": chem.distinct_alphas(rng, len(net["reactions"]) + 2), "entry": "api"}
     nsp = len(net["species"]) + (3 if grains else 0)
     pts = []
     for i in range(8):
@@ -92,6 +100,8 @@ def run_case(case, ctx):
     tags = set()
     if case["grains"]:
         tags.add("grain_species")
+    if case.get("element_without_atom"):
+        tags.add("element_without_atom")
     if any(s["surface"] for s in species):
         tags.add("ice_species")
     if any("D" in s["comp"] for s in species):
@@ -193,7 +203,8 @@ def run_case(case, ctx):
                         for s, sp in comp_by_slot.items():
                             ci, cj = sp["comp"].get(ei, 0), sp["comp"].get(ej, 0)
                             wj = chem.MASSNUM.get(ej, 0) or 1.0
-                            ws = sp["massnumber"] or 1.0
+                            # weight of the renormalised part of the species (elements with an atomic species)
+                            ws = sum(sp["comp"].get(en, 0) * (chem.MASSNUM.get(en, 0) or 1.0) for en in elem_names) or 1.0
                             if ci and cj:
                                 M[i, j] += ci * cj * wj * y[s] / ws / hn
                 r64 = np.linalg.solve(M, np.array(ref, dtype=float))
